@@ -234,3 +234,75 @@ Definition fr_shows (outs : list json) (fr : json) : bool :=
   | JObj _ => forallb (fun k => option_eqb json_eqb (jget k fr) (last_out k outs)) (jkeys fr ++ out_keys outs)
   | _ => false
   end.
+
+(* ---- the window in which the binding's events are SAVED ----
+   Between the monitor's start and the unlock that follows the binding's Synchronization the
+   hook is not triggered at once: the triggers are saved and the hook gets them at the unlock.
+   The property text makes no exception for this window: "An Added or Modified change triggers
+   the hook only if ... the projection differs from THE LAST ONE KNOWN for that object; a Deleted
+   change triggers whenever Deleted is listed", over "all per-object histories of states
+   including repeats of identical states".  So every change of the window that passes the rule
+   - judged against the last known projection at ITS place in the history, however often the same
+   projection, or the very same event, occurred earlier (A -> B -> A -> B; create / delete /
+   re-create with the same content) - is one trigger, and the triggers the hook has got once the
+   unlock has returned (those it got while the window was open, then those handed over by the
+   unlock) are exactly these changes: their number, their order, their type and their object.
+   Suppressed or saved, every change shows in the snapshot at once.  After the unlock the rule
+   goes on from what is known then. *)
+Section Window.
+
+  Variable jq : json -> list json * bool.
+
+  (* the changes of a history that pass the rule, in order *)
+  Fixpoint triggers_of (types : list evtype) (filter : bool) (k : known) (h : list step) : list step :=
+    match h with
+    | [] => []
+    | (t, id, o) :: r =>
+        (if expected_fire jq types filter k t id o then [(t, id, o)] else [])
+        ++ triggers_of types filter (k_next jq filter k t id o) r
+    end.
+
+  (* what is known after a history *)
+  Definition k_after (filter : bool) (k : known) (h : list step) : known :=
+    fold_left (fun k s => match s with (t, id, o) => k_next jq filter k t id o end) h k.
+
+  (* "suppressed changes still update what snapshots show", delivery by delivery *)
+  Fixpoint snaps_ok (filter : bool) (k : known) (h : list step) (snaps : list (list (N * json))) : bool :=
+    match h, snaps with
+    | [], [] => true
+    | (t, id, o) :: h', sn :: snaps' =>
+        snap_eqb sn (map (fun kv => (fst kv, fst (snd kv))) (k_next jq filter k t id o))
+        && snaps_ok filter (k_next jq filter k t id o) h' snaps'
+    | _, _ => false
+    end.
+
+  (* the triggers the hook got at the deliveries themselves: type, object id, object *)
+  Fixpoint recv_of (h : list step) (obs_l : list obs) : list step :=
+    match h, obs_l with
+    | (t, id, o) :: h', ob :: obs' => map (fun t' => (t', id, o)) (o_fired ob) ++ recv_of h' obs'
+    | _, _ => []
+    end.
+
+  Definition step_eqb : step -> step -> bool := pair_eqb (pair_eqb evtype_eqb N.eqb) json_eqb.
+
+  (* [h1], [obs1]: the changes while the events are saved and what was observed at each;
+     [flushed]: the triggers handed over by the unlock, in order; [h2], [obs2]: afterwards *)
+  Definition P_win (types : list evtype) (filter : bool) (k : known)
+                   (h1 : list step) (obs1 : list obs) (flushed : list step)
+                   (h2 : list step) (obs2 : list obs) : bool :=
+    snaps_ok filter k h1 (map o_snapshot obs1)
+    && list_eqb step_eqb (recv_of h1 obs1 ++ flushed) (triggers_of types filter k h1)
+    && P_from jq types filter (k_after filter k h1) h2 obs2.
+
+  (* for a declared binding with objects that exist when it is enabled *)
+  Definition P_win_decl (d : decl) (filter : bool) (lst : list (N * json))
+                        (h1 : list step) (obs1 : list obs) (flushed : list step)
+                        (h2 : list step) (obs2 : list obs) : bool :=
+    P_win (declared_types d) filter (known_of_list jq filter lst) h1 obs1 flushed h2 obs2
+    && only_listed d (obs1 ++ obs2)
+    && match d_exec d with
+       | Some l => forallb (fun s : step => listed l (fst (fst s))) flushed
+       | None => true
+       end.
+
+End Window.
